@@ -121,6 +121,13 @@ fn value(idx: u64, rng: &mut Rng, mon: &mut Mon) {
         q[4] += want[4] - inner[4];
         mon.count("postures_next_to_the_wrist_band");
     }
+    // one posture in twenty has a coupled joint a hair inside +-pi (1e-6 .. 1.5e-4 rad); the previous value of that
+    // joint is then given on the other side of the seam
+    let seam_joint: Option<usize> = if rng.usize(20) == 0 { layers.iter().find_map(|l| if let Layer::Para { coupled, .. } = l { Some(*coupled) } else { None }) } else { None };
+    if let Some(c) = seam_joint {
+        q[c] = rng.sign() * (PI - rng.logu(1e-6, 1.5e-4));
+        mon.count("postures_with_a_coupled_joint_next_to_the_seam");
+    }
     let q = q;
     let reach = rp.reach() + layers.iter().map(|l| match l { Layer::Tool(f) | Layer::Base(f) | Layer::Frame(f) => norm(f.p), _ => 0.0 }).sum::<f64>();
     let ftol = 1e-11 * (1.0 + reach);
@@ -166,6 +173,11 @@ fn value(idx: u64, rng: &mut Rng, mon: &mut Mon) {
             8..=11 => {}
             12..=16 => prev[j] += rng.sign() * rng.logu(1e-8, 1e-4),
             _ => prev = rs_opw_kinematics::kinematic_traits::CONSTRAINT_CENTERED,
+        }
+    }
+    if let Some(c) = seam_joint {
+        if !prev[0].is_nan() {
+            prev[c] = -q[c].signum() * (PI - rng.range(0.0, 0.3));
         }
     }
     mon.count(&format!("value.prev.{}", match prev_class { 0..=7 => "near", 8..=11 => "generating", 12..=16 => "generating_plus_tiny_noise", _ => "sentinel" }));
